@@ -15,6 +15,11 @@ go build ./... > $OUT/build.log 2>&1; RB=$?
 go test $TAGS -count=1 -run "${RUNRE:-Demo|Seed|C[0-9][0-9]}" ./$PKG/ > $OUT/demo_with.log 2>&1; R1=$?
 rm -f $PKG/zz_seed_demo_test.go
 go test -count=1 -vet=off ./pkg/... ./cmd/... > $OUT/suite_with.log 2>&1; RS=$?
+# pkg/auth/fs (file-watcher test) is flaky when the machine is loaded: if it is the only failure, run the suite once more
+if [ $RS -ne 0 ] && ! grep '^FAIL' $OUT/suite_with.log | grep 'github.com' | grep -qv 'pkg/auth/fs'; then
+  mv $OUT/suite_with.log $OUT/suite_with.first_attempt.log
+  go test -count=1 -vet=off ./pkg/... ./cmd/... > $OUT/suite_with.log 2>&1; RS=$?
+fi
 cp $SRC/demo_test.go $OUT/demo_test.go; cp $SRC/NOTES.md $OUT/NOTES.md
 echo "$P-$K demo_without=$R0 build=$RB demo_with=$R1 suite_with=$RS fails=$(grep -c '^FAIL' $OUT/suite_with.log)"
 cd /; git -C /repo worktree remove --force $W
